@@ -3,6 +3,8 @@
 always revert, and record the outcome in seeded/<id>/result.json.
 usage: tools/score_seeded.py [--all-checks] [seeded-id ...]"""
 import json, os, subprocess, sys, time
+os.environ["VERIF_EVIDENCE_DIR"] = "/tmp/verif-trial-evidence"
+os.environ["VERIF_REPLAYS_DIR"] = "/tmp/verif-trial-replays"
 V = os.path.dirname(os.path.dirname(os.path.abspath(__file__)))
 REPO = os.environ.get("VERIF_REPO", "/repo")
 ALL = ["C%02d" % i for i in range(1, 18)]
